@@ -288,6 +288,15 @@ def sort_assignments(
     return static_order
 
 
+def unique_by_name(atoms_: Iterable[T]) -> tuple[T, ...]:
+    """Sort atoms by name. An atom that is listed with the same definition in
+    several blocks (e.g. a parameter shared by two components) is kept once."""
+    unique: dict[str, T] = {}
+    for atom in sorted(atoms_, key=lambda x: (x.name, x.components)):
+        unique.setdefault(atom.name, atom)
+    return tuple(unique.values())
+
+
 class ODE:
     """A class representing an ODE
 
@@ -388,7 +397,7 @@ class ODE:
         states: set[atoms.State] = set()
         for component in self.components:
             states |= component.states
-        return tuple(sorted(states, key=lambda x: x.name))
+        return unique_by_name(states)
 
     @property
     def num_states(self) -> int:
@@ -406,7 +415,7 @@ class ODE:
         parameters: set[atoms.Parameter] = set()
         for component in self.components:
             parameters |= component.parameters
-        return tuple(sorted(parameters, key=lambda x: x.name))
+        return unique_by_name(parameters)
 
     @property
     def num_parameters(self) -> int:
@@ -419,7 +428,7 @@ class ODE:
         state_derivatives: set[atoms.StateDerivative] = set()
         for component in self.components:
             state_derivatives |= component.state_derivatives
-        return tuple(sorted(state_derivatives, key=lambda x: x.name))
+        return unique_by_name(state_derivatives)
 
     @cached_property
     def intermediates(self) -> tuple[atoms.Intermediate, ...]:
@@ -427,7 +436,7 @@ class ODE:
         intermediates: set[atoms.Intermediate] = set()
         for component in self.components:
             intermediates |= component.intermediates
-        return tuple(sorted(intermediates, key=lambda x: x.name))
+        return unique_by_name(intermediates)
 
     @property
     def symbols(self) -> dict[str, sp.Symbol]:
